@@ -166,7 +166,7 @@ var bodies = []string{"", "", "", "abc", "3\r\nabc\r\n0\r\n\r\n", "zz\r\n", "5\r
 
 var originAnswers = []string{"", "", "", "@416-unless-plain@", "@416-unless-plain@", "HTTP/1.1 200 OK\r\nContent-Length: 3\r\n\r\nabc", "HTTP/1.1 200 OK\r\nContent-Length: 10\r\n\r\nabc", "HTTP/1.1 200 OK\r\nContent-Length: -5\r\n\r\nabc", "HTTP/1.1 200 OK\r\nContent-Length: 3\r\nContent-Length: 4\r\n\r\nabc",
 	"HTTP/1.1 200 OK\r\nTransfer-Encoding: chunked\r\n\r\nzz\r\nabc\r\n0\r\n\r\n", "HTTP/1.1 200 OK\r\nTransfer-Encoding: chunked\r\n\r\n3\r\nabc\r\n", "HTTP/1.1 200\r\n\r\n", "HTTP/1.1 999 Weird\r\nContent-Length: 0\r\n\r\n",
-	"HTTP/1.1 20 Short\r\n\r\n", "HTTP/9.9 200 OK\r\n\r\n", "garbage\r\n\r\n", "", "HTTP/1.1 200 OK\r\nBad Header\r\n\r\n", "HTTP/1.1 200 OK\r\nCache-Control: max-age=60\r\nContent-Length: 0\r\n\r\n", "HTTP/1.1 304 Not Modified\r\n\r\n",
+	"HTTP/1.1 20 Short\r\n\r\n", "HTTP/1.1 099 Low\r\nContent-Length: 0\r\n\r\n", "HTTP/1.1 000 Zero\r\nContent-Length: 2\r\n\r\nok", "HTTP/1.1 001 One\r\nCache-Control: max-age=60\r\nContent-Length: 2\r\n\r\nok", "HTTP/1.1 1000 Big\r\nContent-Length: 0\r\n\r\n", "HTTP/9.9 200 OK\r\n\r\n", "garbage\r\n\r\n", "", "HTTP/1.1 200 OK\r\nBad Header\r\n\r\n", "HTTP/1.1 200 OK\r\nCache-Control: max-age=60\r\nContent-Length: 0\r\n\r\n", "HTTP/1.1 304 Not Modified\r\n\r\n",
 	"HTTP/1.1 206 Partial Content\r\nContent-Range: bytes 5-2/3\r\nContent-Length: 3\r\n\r\nabc", "HTTP/1.1 416 Range Not Satisfiable\r\nContent-Length: 0\r\n\r\n", "HTTP/1.1 100 Continue\r\n\r\nHTTP/1.1 200 OK\r\nContent-Length: 2\r\n\r\nok",
 	"HTTP/1.1 200 OK\r\nExpires: 0\r\nCache-Control: no-store, max-age=abc\r\nContent-Length: 1\r\n\r\nx", "HTTP/1.1 200 OK\r\nCache-Control: max-age=\"\r\nContent-Length: 1\r\n\r\nx", "HTTP/1.1 200 OK\r\nCache-Control: public, max-age=\"60\r\nCache-Control: \"\r\nContent-Length: 1\r\n\r\nx", "HTTP/1.1 204 No Content\r\nContent-Length: 5\r\n\r\nabcde", "HTTP/1.1 200 OK\r\nContent-Encoding: gzip\r\nContent-Length: 3\r\n\r\nabc",
 	"HTTP/1.1 301 Moved\r\nLocation: http://[::1\r\nContent-Length: 0\r\n\r\n", "HTTP/1.1 200 OK\r\nETag: \r\nLast-Modified: garbage\r\nContent-Length: 1\r\n\r\nx", "HTTP/1.1 200 OK\r\nX: " + strings.Repeat("b", 100000) + "\r\n\r\n"}
